@@ -22,9 +22,10 @@ Builders whose statement FAILS on the current code have a `…_wrong` theorem
 
 NOT proved here (validated by the oracle and, for the gate lists, by T4 only):
 Kogge-Stone adder/subtractor, array / Karatsuba / Wallace multipliers, all
-dividers, NewIndex, Hamming.
+dividers, NewIndex, Hamming on the GMW target (Kogge-Stone adders).
 -/
 import MpcVerif.Proofs.BuildersSpec
+import MpcVerif.Proofs.BuildersBridge
 
 namespace Mpc
 open Mpc.Bld
@@ -49,6 +50,36 @@ theorem C07_adder (pro : Bool) (x y : List Bool) (nz : Nat)
 -- non-vacuity: 3 + 3 = 6 on 3- and 2-bit operands, 4-bit result
 example : toNat (evalBuilder (fun a b => rippleAdder a b 4) true [true, true, false] [true, true]) = 6 := by
   decide
+
+/-- Bridge to C01: on the gate list of any well-formed builder state, the plain
+circuit evaluator of Model/Circuit.lean (`Circuit.plainEval`, the model of
+`circuit.Circuit.Compute` that C01 compares byte for byte with the Go code)
+gives every wire the value `St.val` used by the theorems of this file. -/
+theorem C07_bridge_plainEval (s : St) (inp : List Bool) (hwf : WF s inp) (nOut w : Nat) :
+    ((s.toCircuit nOut).plainEval inp).get w = s.val inp w :=
+  plainEval_eq_val s inp hwf nOut w
+
+/-- The adder theorem stated on the C01 evaluator: the circuit the harness
+builds around `NewAdder`, run through `Circuit.plainEval`, carries
+`(x + y) mod 2^nz` on its output wires. -/
+theorem C07_adder_compute_model (pro : Bool) (x y : List Bool) (nz : Nat)
+    (hw : 0 < max x.length y.length) (hnz : 0 < nz) :
+    toNat ((runBuilder (fun a b => rippleAdder a b nz) pro x.length y.length).2.map
+      (((runBuilder (fun a b => rippleAdder a b nz) pro x.length y.length).1.toCircuit nz).plainEval
+        (x ++ y)).get) = (toNat x + toNat y) % 2 ^ nz := by
+  have hwf : WF (runBuilder (fun a b => rippleAdder a b nz) pro x.length y.length).1 (x ++ y) := by
+    refine runBuilder_wf ?_ pro (by omega)
+    intro s inp xw yw hwf hx hy hxv hyv
+    have hlx : xw.length = x.length := by rw [← hxv]; simp
+    have hly : yw.length = y.length := by rw [← hyv]; simp
+    exact (rippleAdder_spec hwf nz hx hy (by omega) hnz).mono (fun z s' _ h => h.1)
+  have := (C07_adder pro x y nz hw hnz).2
+  simp only [evalBuilder] at this
+  rw [← this]
+  congr 1
+  apply List.map_congr_left
+  intro w _
+  exact plainEval_eq_val _ _ hwf nz w
 
 /-! ## Subtraction -/
 
@@ -299,6 +330,31 @@ theorem C07_bittest (pro : Bool) (x y : List Bool) (index : Nat) (hw : 0 < x.len
     exact ⟨hb, by rw [hv, hxv]⟩
 
 example : evalBuilder (fun a _ => bitSetTest a 2) false [false, false, true] [false] = [true] := by decide
+
+/-! ## Hamming distance -/
+
+/- Full statement (the Go builder PANICS for 1-bit operands: `arr[1]` with a
+   single leaf; oracle finding C07-hamming-1bit-panic): every width ≥ 1. -/
+
+/-- `Hamming` on the Yao target for operands at least two bits wide, every
+result width: the result is the number of bit positions in which the (zero
+padded) operands differ, modulo `2^nz`. -/
+theorem C07_hamming_partial (pro : Bool) (x y : List Bool) (nz : Nat)
+    (hw : 2 ≤ max x.length y.length) (hnz : 0 < nz) :
+    (evalBuilder (fun a b => hamming false a b nz) pro x y).length = nz ∧
+    toNat (evalBuilder (fun a b => hamming false a b nz) pro x y) =
+      popDiff ((padTo x (max x.length y.length)).zip (padTo y (max x.length y.length))) % 2 ^ nz := by
+  refine evalBuilder_spec (R := fun z => z.length = nz ∧ toNat z =
+    popDiff ((padTo x (max x.length y.length)).zip (padTo y (max x.length y.length))) % 2 ^ nz) ?_ pro (by omega)
+  intro s inp xw yw hwf hx hy hxv hyv
+  have hlx : xw.length = x.length := by rw [← hxv]; simp
+  have hly : yw.length = y.length := by rw [← hyv]; simp
+  refine (hamming_spec hwf nz hx hy (by omega) hnz).mono ?_
+  intro z s' _ ⟨hb, hl, hv⟩
+  exact ⟨hb, by simpa using hl, by rw [hv, hxv, hyv, hlx, hly]⟩
+
+example : toNat (evalBuilder (fun a b => hamming false a b 3) true [true, false, true] [false, false, false, true]) = 3 := by
+  decide +kernel
 
 /-! ## Array multiplier -/
 
